@@ -9,9 +9,14 @@
   `cluster` correspondence family = a mini-cluster of real `Raft<T>` nodes replaying the same schedules).
 
   Theorems
-  * `log_matching`            — for every reachable cluster state, under the named hypothesis `FreshTerms`
-                                 (H_electionSafety: no term has two leaderships), every pair of node logs satisfies
-                                 `LogMatching`.  Proof = inductive invariant `Inv` (ghost map G, Chain, Unique) preserved by
+  * `log_matching_unconditional` — for every reachable cluster state every pair of node logs satisfies `LogMatching`.
+                                 No hypothesis.  = `log_matching` + `election_safety`.
+  * `election_safety`          — no term ever has two leaderships in the cluster model (the former named hypothesis
+                                 H_electionSafety = `FreshTerms`), by the election invariant `EInv` (recorded grants: one
+                                 per voter and term, backed by the persisted vote; a won tally = a strict majority of
+                                 recorded grants; two majorities meet), preserved by every step (`step_einv`).
+  * `log_matching`             — the same under the hypothesis `FreshTerms` (kept: it is the statement the log part
+                                 alone needs).  Proof = inductive invariant `Inv` (ghost map G, Chain, Unique) preserved by
                                  every step (`step_inv`), per-path lemmas `reset_chain`, `fast_chain`, `slow_chain`,
                                  `accept_chain`, `build_chain`, `append_chain`, `truncate_chain`.
   * `requests_match_leader_log` — every AppendEntries request in flight is a chain of created entries hanging below
@@ -23,6 +28,7 @@
   model of the fixed code keeps log matching (and H_electionSafety) on that schedule.
 -/
 import DEngine.Lemmas.ClusterStep
+import DEngine.Lemmas.ClusterElectAll
 import DEngine.Model.ClusterTrace
 namespace DEngine.C04
 open DEngine.Cluster
@@ -39,7 +45,7 @@ inductive Reachable (n cap : Nat) : Cluster → Prop
   | init : Reachable n cap (Cluster.init n cap)
   | step {c : Cluster} (e : Event) : Reachable n cap c → Reachable n cap (step c e).1
 
-/-- H_electionSafety (named hypothesis, to be discharged by C01 + C02): no term has two leaderships. -/
+/-- H_electionSafety: no term has two leaderships.  Proved for every reachable state as `election_safety` below. -/
 abbrev H_electionSafety (c : Cluster) : Prop := FreshTerms c.leaderTerms
 
 theorem reachable_inv {n cap : Nat} {c : Cluster} (hr : Reachable n cap c) : H_electionSafety c → Inv c := by
@@ -81,6 +87,27 @@ theorem log_matching {n cap : Nat} {c : Cluster} (hr : Reachable n cap c) (hes :
 theorem requests_match_leader_log {n cap : Nat} {c : Cluster} (hr : Reachable n cap c) (hes : H_electionSafety c) :
     ∀ x ∈ c.msgs, ∀ r, aeOf x.2 = some r → ChainFrom c.ghost r.prevI r.prevT r.entries :=
   (reachable_inv hr hes).msgs
+
+/-- Both invariants together over all reachable states: the log invariant `Inv` needs the election invariant `EInv`
+    (no term re-used) and `EInv` needs `Inv` (a leader's round only sends requests built from its own log). -/
+theorem reachable_both {n cap : Nat} {c : Cluster} (hr : Reachable n cap c) : Inv c ∧ EInv c := by
+  induction hr with
+  | init => exact ⟨inv_init n cap, einv_init n cap⟩
+  | step e _ ih =>
+    have he := step_einv ih.1 ih.2 e
+    exact ⟨step_inv ih.1 e he.fresh, he⟩
+
+/-- Election safety of the cluster model (C01 at the cluster level): no term ever has two leaderships.  Proved from
+    the vote bookkeeping: a won tally is a strict majority of distinct voters whose grants are recorded (`won_quorum`),
+    a voter grants at most one candidate per term (`guniq`, from `voteDecision` + the persisted `voted_for`), two
+    majorities share a voter (`quorums_meet`).  This discharges `H_electionSafety`. -/
+theorem election_safety {n cap : Nat} {c : Cluster} (hr : Reachable n cap c) : H_electionSafety c :=
+  (reachable_both hr).2.fresh
+
+/-- C04 without hypothesis: in every reachable state of the cluster model every pair of node logs matches. -/
+theorem log_matching_unconditional {n cap : Nat} {c : Cluster} (hr : Reachable n cap c) :
+    ∀ i j, LogMatching (c.nodes i).log (c.nodes j).log :=
+  log_matching hr (election_safety hr)
 
 /-- The monitor evaluated on the implementation's traces is the decidable form of `LogMatching`. -/
 theorem logMatchingB_iff (a b : Log) : logMatchingB a b = true ↔ LogMatching a b := by
